@@ -344,6 +344,9 @@ def call(node: ast.Call, env: Env) -> Term:
         if name == "iter" and len(args) == 1:
             return ("iter", T(args[0], env))
     recv: Optional[Term] = None
+    if isinstance(f, ast.Attribute) and isinstance(f.value, ast.Name) and f.value.id in ("itertools", "functools", "operator", "collections", "math", "bisect") and f.value.id not in env.names:
+        # itertools.islice(..) and islice(..) are the same call
+        return call(ast.Call(func=ast.Name(id=f.attr, ctx=ast.Load()), args=node.args, keywords=node.keywords), env)
     if isinstance(f, ast.Attribute):
         recv = T(f.value, env)
         name = f.attr
